@@ -297,7 +297,7 @@ def probes(st, tier, seed):
             pass
 
 
-CHECK = PCheck(PID, RULE, gen, judge, quick=6000, thorough=200000, floor=500, known_match=known_match, probes=probes,
+CHECK = PCheck(PID, RULE, gen, judge, quick=6000, thorough=200000, floor=500, known_match=known_match, probes=probes, corpus=False,
                assumptions=["out of process through the real binary (--no-preprocessor)", "resource exhaustion by construction (multi-megabyte inputs, thousand-level nesting) is out of scope",
                             "recorded assertion signatures are excluded and re-probed"])
 main, replay_file = CHECK.main, CHECK.replay_file
